@@ -188,6 +188,19 @@ pub fn render_obo(f: &FactSet, rng: &mut Rng, o: &JaxOpts) -> String {
         rng.shuffle(&mut stanzas);
     }
     let mut out = String::new();
+    // facts without a release version may come as a file without any header block (version 0000-00-00
+    // is what the loaders report when no data-version is given)
+    if f.version == (0, 0, 0) && rng.chance(1, 2) {
+        let mut first = true;
+        for s in stanzas {
+            if !first {
+                out.push('\n');
+            }
+            first = false;
+            out.push_str(&s);
+        }
+        return out;
+    }
     out.push_str("format-version: 1.2\n");
     if o.noise {
         out.push_str("subsetdef: hposlim_core \"Core clinical terminology\"\n");
